@@ -226,8 +226,11 @@ def r09_2(ctx: Ctx) -> None:
                   "an unselected member is skipped without being registered as None: the folder writer cannot tell it from a member to deliver / skip-decode")
     if sname is not None:
         # the registration loop: exactly the recorded ids are registered None and passed over, before anything else is done with the member
+        # (the set may have travelled through a `return` of a helper that was expanded in place: `unwanted = <the helper's set>`)
+        aliases = {sname} | {t_.id for n_ in walk(f.node) if isinstance(n_, ast.Assign) and isinstance(n_.value, ast.Name) and n_.value.id == sname
+                             for t_ in n_.targets if isinstance(t_, ast.Name) and len(q.assigned_values(f, t_.id)) == 1}
         gate = [n for n in regl.body if isinstance(n, ast.If) and isinstance(n.test, ast.Compare) and len(n.test.ops) == 1 and isinstance(n.test.ops[0], ast.In)
-                and norm(n.test.left) == f"{regl.target.id}.id" and norm(n.test.comparators[0]) == sname]
+                and norm(n.test.left) == f"{regl.target.id}.id" and norm(n.test.comparators[0]) in aliases]
         ok = bool(gate) and regl.body[0] is gate[0] and len(gate[0].body) == 2 and isinstance(gate[0].body[1], ast.Continue) and isinstance(gate[0].body[0], ast.Expr) \
             and isinstance(gate[0].body[0].value, ast.Call) and attr_tail(gate[0].body[0].value) == "register_filelike" and norm(gate[0].body[0].value.args[0]) == f"{regl.target.id}.id" \
             and isinstance(gate[0].body[0].value.args[1], ast.Constant) and gate[0].body[0].value.args[1].value is None and not gate[0].orelse
